@@ -58,6 +58,14 @@ def _configs(nmax):
     return out
 
 
+def cost(case):
+    if case.get("fam") == "mid":
+        return 30 if case["screening"] else 2
+    if case.get("loc") in ("h5all", "h5setup"):
+        return 10
+    return 1
+
+
 def cases(tier, seed):
     quick = tier == "quick"
     out = []
